@@ -831,18 +831,7 @@ func (s *Scanner) checkUnionInjection(stmt *ast.SetOperation, result *ScanResult
 		// Check for system table access using precise matching
 		// the parser records the tables of a SELECT in From; TableName is
 		// only set for the simplest single-table form
-		systemTable := rightSelect.TableName != "" && s.isSystemTable(rightSelect.TableName)
-		for _, ref := range rightSelect.From {
-			if ref.Name != "" && s.isSystemTable(ref.Name) {
-				systemTable = true
-			}
-		}
-		// a system table joined to another table is read just the same
-		for _, join := range rightSelect.Joins {
-			if join.Right.Name != "" && s.isSystemTable(join.Right.Name) {
-				systemTable = true
-			}
-		}
+		systemTable := s.readsSystemTable(rightSelect, 0)
 		if systemTable {
 			{
 				finding := Finding{
@@ -858,6 +847,35 @@ func (s *Scanner) checkUnionInjection(stmt *ast.SetOperation, result *ScanResult
 			}
 		}
 	}
+}
+
+// readsSystemTable reports whether a SELECT names a system table in its FROM
+// list or in a join, directly or inside a derived table (to a bounded depth).
+func (s *Scanner) readsSystemTable(sel *ast.SelectStatement, depth int) bool {
+	if sel == nil || depth > 32 {
+		return false
+	}
+	if sel.TableName != "" && s.isSystemTable(sel.TableName) {
+		return true
+	}
+	table := func(ref *ast.TableReference) bool {
+		if ref.Name != "" && s.isSystemTable(ref.Name) {
+			return true
+		}
+		return ref.Subquery != nil && s.readsSystemTable(ref.Subquery, depth+1)
+	}
+	for i := range sel.From {
+		if table(&sel.From[i]) {
+			return true
+		}
+	}
+	// a system table joined to another table is read just the same
+	for i := range sel.Joins {
+		if table(&sel.Joins[i].Right) {
+			return true
+		}
+	}
+	return false
 }
 
 // isSystemTable checks if a table name refers to a system table using precise matching.
